@@ -352,10 +352,12 @@ def has_guard(fi: FuncInfo, pred: Callable[[ast.AST], bool], noret, outcome="rai
     return None
 
 
-def is_none_test(expr_text: str) -> Callable[[ast.AST], bool]:
+def is_none_test(expr_text: str, absent: Optional[str] = None) -> Callable[[ast.AST], bool]:
+    """The looked-up value is missing: `<x> is None` for a `.get` result, or — the canonical spelling of a membership
+    decision (canon_flow.membership_spellings) — `<key> not in <table>` (`absent`, as text)."""
     def p(t):
         s = _norm(t)
-        return s in (f"{expr_text} is None", f"not {expr_text}", f"{expr_text} == None")
+        return s in (f"{expr_text} is None", f"not {expr_text}", f"{expr_text} == None") or (absent is not None and s in (absent, f"not ({absent.replace(' not in ', ' in ')})", "not " + absent.replace(" not in ", " in ")))
     return p
 
 
@@ -495,7 +497,7 @@ def guard_inventory(repo: Repo, R, noret):
 
     # --- arrays
     fa = repo.func(F_ARRAYS, "ArrayFlattener.elaborate_module")
-    G(fa, "array-port-exists", is_none_test("port"), "array connection to a non-existent port", "an array connection to a non-existent port is dropped")
+    G(fa, "array-port-exists", is_none_test("port", "portname not in target.ports"), "array connection to a non-existent port", "an array connection to a non-existent port is dropped")
     G(fa, "array-size", lambda t: au.cmp_norm(t) == au.cmp_norm(ast.parse("array.n < 1", mode="eval").body), "instance array of size < 1", "an empty array silently disappears")
     G(fa, "array-slice-width", lambda t: au.cmp_norm(t) == au.cmp_norm(ast.parse("slize.width != port.width", mode="eval").body), "per-element slice width != port width", "a mis-sized element slice is connected")
     G(fa, "array-port-is-signal", lambda t: _norm(t) == "not isinstance(port, Signal)", "array scalar connection to a bundle-valued port", "a signal is broadcast onto a bundle port")
@@ -506,7 +508,7 @@ def guard_inventory(repo: Repo, R, noret):
     frn = repo.func(F_PORTREFS, "ResolvePortRefs.replace_noconn")
     G(frn, "noconn-port-exists", is_none_test("port"), "no-connect on a non-existent port", "a NoConn on a non-existent port is accepted")
     frb = repo.func(F_RRT, "resolve_bundleref_type")
-    G(frb, "bundle-member-exists", is_none_test("attr"), "bundle reference to a non-existent member", "a reference to a non-existent bundle member is accepted")
+    G(frb, "bundle-member-exists", is_none_test("attr", "bref.attrname not in parent.of"), "bundle reference to a non-existent member", "a reference to a non-existent bundle member is accepted")
     frp = repo.func(F_FLATB, "BundleFlattener.resolve_path")
     ok = False
     for n in au.walk_no_nested(frp.node):
